@@ -33,7 +33,7 @@ def later_desc(draw, fdefs, groups, desc0, n_range, extend=False):
     """A later trajectory whose species stay inside what the first trajectory
     put into the same file (unless extend=True for exactly one field)."""
     d = draw(sc.traj_desc((), n_range=n_range, fid=None))
-    d['flight_id'] = None if desc0['flight_id'] is None else draw(st.integers(0, 2**40))
+    d['flight_id'] = None if desc0['flight_id'] is None else draw(sc.FLIGHT_ID)
     for g in groups:
         gf = [fdefs[i] for i in g]
         pool = _group_species(desc0, gf)
@@ -42,7 +42,9 @@ def later_desc(draw, fdefs, groups, desc0, n_range, extend=False):
             for f in fd['fields']:
                 has_sp = 'S' in f['dims']
                 if has_sp and not pool:
-                    vals.append({'unset': 'none'} if not f['required'] else None)
+                    # nothing in the file to stay inside of: unset, or (required) present with no species at all
+                    empty = {'TS': {'s': {}}, 'TSP': {'sseed': {}}, 'TSM': {'sm': {}}}[f['dims']]
+                    vals.append({'unset': 'none'} if not f['required'] else empty)
                     continue
                 vals.append(draw(sc.field_value(f, pool if has_sp else None)))
             d['extras'][sc.fs_name(fd)] = vals
